@@ -219,7 +219,7 @@ func c04Reads() []c04read {
 	return ops
 }
 
-func readerSessionLies(rs syncer.ReadSyncer, root node.Root, truth kv.Contents, nodeCap uint64, depth int) (lie string, sessions int64) {
+func readerSessionLies(rs syncer.ReadSyncer, root node.Root, truth kv.Contents, nodeCap, valueCap uint64, depth int) (lie string, sessions int64) {
 	var cur []c04read
 	defer func() {
 		if p := recover(); p != nil {
@@ -261,7 +261,7 @@ func readerSessionLies(rs syncer.ReadSyncer, root node.Root, truth kv.Contents, 
 	}
 	idx := make([]int, depth)
 	for {
-		rd := mkvs.NewWithRoot(rs, nil, root, mkvs.Capacity(nodeCap, 0))
+		rd := mkvs.NewWithRoot(rs, nil, root, mkvs.Capacity(nodeCap, valueCap))
 		cur = cur[:0]
 		sessions++
 		for _, k := range idx {
@@ -379,6 +379,7 @@ type c04Artefact struct {
 	Tape     []int         `json:"tape,omitempty"`
 	NodeCap  uint64        `json:"node_cap,omitempty"`
 	Depth    int           `json:"depth,omitempty"`
+	ValueCap uint64        `json:"value_cap,omitempty"`
 }
 
 var c04SessionDepth = 2
@@ -755,11 +756,11 @@ func c04CheckTree(r *ev.Run, tr *c04tree, neighbours []*c04tree, reqs []c04req, 
 			r.Violate(ev.Violation{Engine: "kvmc", Key: fmt.Sprintf("c04 small-cache %s cap=%d", tr.c, nc), What: fmt.Sprintf("tree %s read from an honest peer through a node cache of %d: %s", tr.c, nc, lie), Artefact: c04Artefact{Contents: tr.c, NodeCap: nc, Mutation: "small-cache"}})
 		}
 	}
-	for _, nc := range []uint64{1, 2, 3, 4} {
-		lie, n := readerSessionLies(tr.t, tr.root, tr.c, nc, c04SessionDepth)
+	for _, cp := range [][2]uint64{{1, 0}, {2, 0}, {3, 0}, {4, 0}, {0, 1}, {0, 3}, {2, 3}} {
+		lie, n := readerSessionLies(tr.t, tr.root, tr.c, cp[0], cp[1], c04SessionDepth)
 		sessions += n
 		if lie != "" {
-			r.Violate(ev.Violation{Engine: "kvmc", Key: fmt.Sprintf("c04 reader-session %s cap=%d", tr.c, nc), What: fmt.Sprintf("tree %s read from an honest peer through a node cache of %d: %s", tr.c, nc, lie), Artefact: c04Artefact{Contents: tr.c, NodeCap: nc, Mutation: "reader-session", Depth: c04SessionDepth}})
+			r.Violate(ev.Violation{Engine: "kvmc", Key: fmt.Sprintf("c04 reader-session %s cap=%d/%d", tr.c, cp[0], cp[1]), What: fmt.Sprintf("tree %s read from an honest peer through a cache of %d nodes / %d value bytes (0 = unlimited): %s", tr.c, cp[0], cp[1], lie), Artefact: c04Artefact{Contents: tr.c, NodeCap: cp[0], ValueCap: cp[1], Mutation: "reader-session", Depth: c04SessionDepth}})
 		}
 	}
 	// splice universe: all distinct entries of the get-proofs of the neighbours and of this tree
@@ -1063,7 +1064,7 @@ func c04Replay(r *ev.Run) {
 			what = readerLiesWarm(tr.t, tr.root, tr.c, a.NodeCap)
 		}
 	case a.Mutation == "reader-session":
-		what, _ = readerSessionLies(tr.t, tr.root, tr.c, a.NodeCap, a.Depth)
+		what, _ = readerSessionLies(tr.t, tr.root, tr.c, a.NodeCap, a.ValueCap, a.Depth)
 	case a.Mutation == "adversary":
 		ot, _ := c04MakeTree(ndb, a.Other)
 		what, _ = tapeReaderLies(&tapeSyncer{src: tr.t, root: tr.root, other: ot.t, oroot: ot.root, tape: a.Tape}, tr.c, a.NodeCap)
